@@ -8,4 +8,5 @@ TARGETS = {
     "c17_text": dict(flavours=["seq", "fast"], src=["harness/c17_text.cpp"], net="stub"),
     "c18_book": dict(flavours=["seq"], src=["harness/c18_book.cpp"], net="stub", ldflags="-Wl,--wrap=_ZN6Random7nextIntEi"),
     "c19_bookbuild": dict(flavours=["seq", "fast"], src=["harness/c19_bookbuild.cpp"], net="stub"),
+    "c12_tbgen": dict(flavours=["seq", "fast"], src=["harness/c12_tbgen.cpp"], net="stub"),
 }
